@@ -3,7 +3,8 @@ CONSTANTS
   Names = {"x"}
   FileTok = {"f2"}
   EnvTok = {"e1"}
-  ExecTok = {"p1"}
+  ExecTok = {"p1", "gone"}
+  MissingExec = {"gone"}
   SbomTok = {"s1"}
   Formats <- MCFormats1
   MdVals = {"1"}
